@@ -74,10 +74,16 @@ def agreeHolds (v : VTarget) (s : TResult) : Bool :=
   | .path tp₁, .ok tp₂ => tp₁ == tp₂
   | _, _ => true
 
-/-- the text contains `{{` (start of a template section in a VRL string literal). -/
-def hasTemplate : List Char → Bool
+/-- the text continues with `{{` (start of a template section in a VRL string literal) or with
+    `\\}}` (which `template()` rewrites to `}}` before unescaping, also after an escaped backslash). -/
+def startsTpl : List Char → Bool
   | '{' :: '{' :: _ => true
-  | _ :: rest => hasTemplate rest
+  | '\\' :: '}' :: '}' :: _ => true
+  | _ => false
+
+/-- finding class of clause (2): the text contains `{{` or `\\}}` somewhere. -/
+def hasTemplate : List Char → Bool
   | [] => false
+  | c :: rest => startsTpl (c :: rest) || hasTemplate rest
 
 end C20
